@@ -148,6 +148,16 @@ func propC02(run *Run, n int) {
 			addC02Case(run, fmt.Sprintf("diff:long-line-%d", size), dw, a.Wire(), b.Wire(), OptNone.Wire())
 		}
 	}
+	// hand-written hunks the reader accepts and Diff never emits: the start / end marker TOGETHER with context lines
+	for _, dw := range []string{
+		"< ( s K\"61 I1 | V #3ff0000000000000 | #4000000000000000 | #4008000000000000 | #4010000000000000 V ) >",
+		"< ( s I1 | V #3ff0000000000000 | #4000000000000000 | | #4010000000000000 ) >",
+		"< ( s I1 | #3ff0000000000000 | #4000000000000000 | #4008000000000000 | #4010000000000000 V ) >",
+		"< ( s I2 | V #3ff0000000000000 #3ff0000000000000 | #4000000000000000 | #4008000000000000 | V ) >",
+	} {
+		run.Count("fixed:marker-with-context")
+		addC02Case(run, "hand:marker-with-context", dw, "", "", "")
+	}
 	shapes := hunkShapes()
 	run.Count(fmt.Sprintf("hunk_shapes=%d", len(shapes)))
 	for _, h := range shapes {
@@ -257,10 +267,16 @@ func addC02Case(run *Run, kind, dw, aw, bw, ow string) {
 		d := mustDiff(dw)
 		text = d.Render()
 		ctext = mustDiff(dw).Render(jd.COLOR)
+		if again := d.Render(); again != text {
+			effect = "fail a second Render of the same Diff value gives a different text (rendering changed the diff)"
+		}
 		d2, err := jd.ReadDiffString(text)
 		d2w = encOutcomeDiff(d2, err)
 		if err == nil {
 			text2 = d2.Render()
+			if again := d2.Render(); again != text2 {
+				effect = "fail a second Render of the same re-read Diff value gives a different text (rendering changed the diff)"
+			}
 			if aw != "" {
 				// effect on the document the diff was made for, and on a few others
 				for _, tw := range []string{aw, bw} {
